@@ -527,14 +527,20 @@ impl Runner {
                     let mut child = std::process::Command::new("timeout").arg("20").arg(&bin).arg(&text)
                         .stdout(std::process::Stdio::piped()).stderr(std::process::Stdio::null()).spawn().expect("run pushr");
                     let mut stdout = String::new();
+                    #[allow(unused_assignments)]
+                    let mut full = false;
                     {
                         use std::io::Read;
                         let mut limited = child.stdout.take().unwrap().take(4 * 1024 * 1024);
                         let mut buf = Vec::new();
                         let _ = limited.read_to_end(&mut buf);
+            full = buf.len() >= 4 * 1024 * 1024;
                         stdout.push_str(&String::from_utf8_lossy(&buf));
                     }
-                    let _ = child.kill();
+                    if full {
+            // more output than is read: the rest is not needed (a finished process is never killed: its exit code counts)
+            let _ = child.kill();
+        }
                     let status = child.wait().expect("wait pushr");
                     let mut blocks: Vec<Value> = vec![];
                     let mut cur = json!({});
